@@ -122,26 +122,29 @@ func rulePoolSwap(r *Report) {
 		if fn == nil {
 			continue
 		}
-		fi := lockFlow(fn, LockSet{})
 		var swapCur, swapNext *ssa.Store
-		for _, st := range fieldStores(fn, c.typ+".curPool") {
+		for _, st := range deepFieldStores(fn, c.typ+".curPool") {
 			if outerField(st.Val) == c.typ+".nextPool" || fieldOfLoad(st.Val) == c.typ+".nextPool" {
 				swapCur = st
 			}
 		}
-		for _, st := range fieldStores(fn, c.typ+".nextPool") {
+		for _, st := range deepFieldStores(fn, c.typ+".nextPool") {
 			switch st.Val.(type) {
 			case *ssa.MakeMap, *ssa.Call:
 				swapNext = st
 			}
 		}
-		if swapCur == nil || swapNext == nil {
-			r.Bad(rule, c.typ+".Flush/swap", fn.Pos(), "Flush does not move nextPool to curPool and install a fresh nextPool")
+		if swapCur == nil || swapNext == nil || swapCur.Parent() != swapNext.Parent() {
+			r.Bad(rule, c.typ+".Flush/swap", fn.Pos(), "Flush does not move nextPool to curPool and install a fresh nextPool (in one function)")
 			continue
 		}
-		ok, why := sameSection(fn, fi, swapCur, swapNext, c.lock, modeW)
-		ok2, _ := sameSection(fn, fi, swapNext, swapCur, c.lock, modeW)
-		order, _ := Search{Fn: fn, From: swapCur, Target: isInstr(swapNext)}.Run()
+		// the two stores may sit in a helper of Flush: analyse that function,
+		// entered with the locks Flush holds at its call sites
+		sfn := swapCur.Parent()
+		fi := lockFlow(sfn, deepCtx(fn, sfn))
+		ok, why := sameSection(sfn, fi, swapCur, swapNext, c.lock, modeW)
+		ok2, _ := sameSection(sfn, fi, swapNext, swapCur, c.lock, modeW)
+		order, _ := Search{Fn: sfn, From: swapCur, Target: isInstr(swapNext)}.Run()
 		if ok && ok2 && order {
 			r.Ok(rule, c.typ+".Flush/swap-atomic", instrPos(swapCur), "cur = next and next = fresh are stores in one exclusive section of the pool lock")
 		} else {
@@ -149,7 +152,7 @@ func rulePoolSwap(r *Report) {
 		}
 		// the emptiness test is in the same section
 		// other stores to curPool in Flush must not hide data before it is published
-		for _, st := range fieldStores(fn, c.typ+".curPool") {
+		for _, st := range deepFieldStores(fn, c.typ+".curPool") {
 			if st == swapCur {
 				continue
 			}
@@ -174,7 +177,7 @@ func rulePoolSwap(r *Report) {
 				if isLocalAlloc(st.Addr.(*ssa.FieldAddr).X) {
 					continue
 				}
-				if _, ok := allowed[shortFunc(fn)]; ok {
+				if onlyCalledFrom(fn, func(f *ssa.Function) bool { _, ok := allowed[shortFunc(f)]; return ok }) {
 					r.Ok(rule, "curPool-writers/"+shortFunc(fn), instrPos(st), "allowed writer of curPool")
 				} else {
 					r.Bad(rule, "curPool-writers/"+shortFunc(fn), instrPos(st), "curPool is written outside Flush: the just-flushed data may become unreadable before the bucket table/primary file covers it")
@@ -246,10 +249,14 @@ func init() {
 		ruleIndexNamesNewLocation(r)
 		ruleBucketAfterWrite(r)
 		ruleKeyCheck(r)
-		la, rt := runLockAnalysis(r, "race-fg-fl")
-		reportRaces(r, la, rt, "race-fg-fl", func(root string) bool { return root == "FG" || root == "FL" }, nil)
-		r.Min("race-fg-fl", 20)
+		// all thread roots: the collectors run behind every foreground call too
+		la, rt := runLockAnalysis(r, "race")
+		reportRaces(r, la, rt, "race", nil, nil)
+		r.Min("race", 25)
 		reportLockOrder(r, la, "lock-order")
+		// "an operation on one key never changes or hides another key, even when
+		// both live in the same bucket and share stored prefix bytes"
+		r.support([]string{"splice", "samevalue-guard", "opaque-value", "pool-order", "predict", "gc-not-current", "retain", "free-after-index"})
 	},
 		"Decides structural necessary conditions of 'keys do not interfere / lookups after a Put see it', not linearizability over all schedules: in Index.Put/Update/Remove the read of the bucket's record list and the store of the new list happen in one exclusive bucketLk section and the stored list derives from that read; in each Flush the pool swap is one exclusive section, curPool is written only by Flush and (index) not overwritten before the bucket table is updated after a successful write; cache lookups report a miss only after both pools; every present-outcome is behind the full-key comparison; no unprotected conflicting access pair among the foreground/flusher roots; lock order acyclic. Not covered: linearizability itself, same-key write/write interleavings, visibility timing.")
 }
